@@ -697,6 +697,17 @@ func genOps(t *rapid.T, label string, outcomes []string, maxN int) []OpScript {
 
 func gen(t *rapid.T) Case {
 	var c Case
+	if rapid.IntRange(0, 11).Draw(t, "bigBacklog") == 0 {
+		// a session that ends with thousands of chunks sent and unacknowledged (every ACK names an unknown ID, so nothing is
+		// ever resolved): whatever the two goroutines have to hand over to each other at the end of a session takes its
+		// longest then
+		n := rapid.IntRange(3000, 4500).Draw(t, "bigN")
+		cs := ConnScript{Connect: OpScript{Outcome: "ok"}}
+		for i := 0; i < n; i++ {
+			cs.Acks = append(cs.Acks, OpScript{Outcome: "wrongid"})
+		}
+		return Case{Conns: []ConnScript{cs}, Chunks: n, FeedGaps: []int{0}, StopAtOp: rapid.IntRange(n, 2*n).Draw(t, "bigStopAt")}
+	}
 	nconn := rapid.IntRange(0, 5).Draw(t, "nconns")
 	for i := 0; i < nconn; i++ {
 		cs := ConnScript{Connect: OpScript{Outcome: rapid.SampledFrom([]string{"ok", "ok", "ok", "error", "block"}).Draw(t, "connect")}}
@@ -728,6 +739,6 @@ func gen(t *rapid.T) Case {
 func TestC02Client(t *testing.T) {
 	vh.Run(t, vh.Spec[Case]{
 		Name: "client", Gen: gen, Run: runCase, Quick: 250, Thorough: 4000, ShrinkSeconds: 6,
-		Rule: "the real baseoutput.ClientWorker driven by a scripted ClosableClientConnection: 0-5 scripted connection attempts (connect ok/error/hang; explicit-ID, in-order empty ACK style, or a synchronous connection whose ACK read returns at once as the Datadog client's does), per connection up to 6 scripted send outcomes (ok/error/block until closed or deadline), 6 ACK-read outcomes (ok/error/block/wrong ID/late after n more sends) and ping outcomes, per-operation delays, 0-30 chunks fed with gaps, stop request when the k-th I/O operation begins or after a drain wait, SIGUSR1 and max-session-age reconnects; afterwards everything is healthy. Oracle over the recorded history: consumed only after an ACK for that chunk on a connection where its send succeeded; every chunk taken from the queue resolved exactly once (consumed xor leftover), none twice, OnFinished last; sends per connection in increasing ID order without skipping an older unresolved chunk; worker stops within 8 s. Non-trivial = an injected fault while chunks were un-ACKed, or a stop with chunks in flight",
+		Rule: "the real baseoutput.ClientWorker driven by a scripted ClosableClientConnection: 0-5 scripted connection attempts (connect ok/error/hang; explicit-ID, in-order empty ACK style, or a synchronous connection whose ACK read returns at once as the Datadog client's does), per connection up to 6 scripted send outcomes (ok/error/block until closed or deadline), 6 ACK-read outcomes (ok/error/block/wrong ID/late after n more sends) and ping outcomes, per-operation delays, 0-30 chunks fed with gaps (one case in twelve: 3000-4500 chunks, every ACK naming an unknown ID, stop in the middle - a session that ends with thousands of chunks sent and unacknowledged), stop request when the k-th I/O operation begins or after a drain wait, SIGUSR1 and max-session-age reconnects; afterwards everything is healthy. Oracle over the recorded history: consumed only after an ACK for that chunk on a connection where its send succeeded; every chunk taken from the queue resolved exactly once (consumed xor leftover), none twice, OnFinished last; sends per connection in increasing ID order without skipping an older unresolved chunk; worker stops within 8 s. Non-trivial = an injected fault while chunks were un-ACKed, or a stop with chunks in flight",
 	})
 }
